@@ -169,7 +169,7 @@ def census(prog):
     return errs
 
 
-def one_path(E, ctx, prog, desc_base):
+def one_path(E, ctx, prog, desc_base, raising=False):
     fails = []
     variants = []
     for prune in (True, False):
@@ -182,16 +182,17 @@ def one_path(E, ctx, prog, desc_base):
         variants.append((prune, st[1]))
     if E is not None:
         args, argvars = s2.sym_args(E)
-        env1 = s2.Env(E)
+        env1 = s2.Env(E, raising=raising)
     else:
         args = s2.concrete_args(desc_base["args"])
         argvars = []
-        env1 = s2.Env(None, concrete=desc_base["ext"])
+        raising = any(k.startswith("raise:") for k in desc_base["ext"])
+        env1 = s2.Env(None, concrete=desc_base["ext"], raising=raising)
     o1 = prog.run(prog.orig_fn, args, env1)
     if o1[0] == "unwind":
         return fails, "unwind"
     for prune, bp in variants:
-        env2 = s2.Env(E) if E is not None else s2.Env(None, concrete=desc_base["ext"])
+        env2 = s2.Env(E, raising=raising) if E is not None else s2.Env(None, concrete=desc_base["ext"], raising=raising)
         o2 = prog.run_blocks(bp, args, env2)
         mism = s2.compare_runs(E, o1, env1.log, o2, env2.log, ctx)
         for kind, detail in mism:
@@ -209,7 +210,7 @@ def one_path(E, ctx, prog, desc_base):
     return fails, "compared"
 
 
-def harness_for(gen_factory):
+def harness_for(gen_factory, raising=False):
     def harness(E, ctx, aux):
         ch = s2.Chooser(E, getattr(ctx, "cube", ()))
         g = gen_factory(ch)
@@ -245,7 +246,7 @@ def harness_for(gen_factory):
                         continue
                     seen.add(sig)
                     ctx.fail("census", sig, {"src": src, "args": None, "ext": {}}, repr(err)[:300])
-        fails, status = one_path(E, ctx, prog, None)
+        fails, status = one_path(E, ctx, prog, None, raising)
         ctx.evaluations += 1
         ctx.feature("path:" + status)
         for f in fails:
@@ -259,24 +260,8 @@ def harness_for(gen_factory):
 
 
 def jobs(tier):
-    out = []
-    for j in _c07_jobs(tier):
-        # same spaces, different harness: rebuild the job around the generator factory
-        factory = j.harness.__closure__[0].cell_contents if False else None
-        out.append(j)
-    return [_rewrap(j) for j in out]
-
-
-def _rewrap(j):
-    # the C07 harness closure holds the generator factory
-    factory = None
-    for cell in j.harness.__closure__ or ():
-        v = cell.cell_contents
-        if callable(v):
-            factory = v
-    assert factory is not None
-    return Job(name=j.name, space=j.space, harness=harness_for(factory), bounds=j.bounds, budget_s=j.budget_s,
-               required=j.required, cubes_fn=j.cubes_fn, path_timeout_s=j.path_timeout_s)
+    return [Job(name=j.name, space=j.space, harness=harness_for(j.harness.factory, j.harness.raising), bounds=j.bounds, budget_s=j.budget_s,
+                required=j.required, cubes_fn=j.cubes_fn, path_timeout_s=j.path_timeout_s) for j in _c07_jobs(tier)]
 
 
 def replay(desc):
